@@ -222,7 +222,8 @@ theorem findFirst_closed (hc : Closed P) : ∀ (l : List Nat) (s : BSt), P s →
         refine ⟨hc.ctxEmpty s j h, fun i hi => ?_⟩
         simp only [Option.some.injEq] at hi
         subst hi
-        exact ⟨s, h, by simpa using hv, he, rfl⟩
+        simp only [Bool.and_eq_true] at he
+        exact ⟨s, h, by simpa using hv, he.1, rfl⟩
       · exact findFirst_closed hc rest _ (hc.ctxEmpty s j h)
 
 theorem cleanupGo_closed (hc : Closed P) : ∀ (fuel : Nat) (s : BSt), P s → P (cleanupContexts.go fuel s)
